@@ -745,12 +745,8 @@ theorem urivalue_wrapped (Y : Cps) (hs : strip Y = Y) : urivalue (urlPrefix ++ Y
     simp [urlPrefix]
   rw [this, hs]
 
-theorem uritokenvalue_wrapped (Y : Cps) (hs : strip Y = Y) : uritokenvalue (urlPrefix ++ Y ++ [0x29]) = unquoteUri Y := by
-  unfold uritokenvalue
-  have : ((urlPrefix ++ Y ++ [0x29]).dropLast).drop 4 = Y := by
-    rw [List.dropLast_concat]
-    simp [urlPrefix]
-  rw [this, hs]
+theorem uritokenvalue_wrapped (Y : Cps) (hs : strip Y = Y) : uritokenvalue (urlPrefix ++ Y ++ [0x29]) = unquoteUri Y :=
+  urivalue_wrapped Y hs
 
 theorem ssub_urlPrefix (X : Cps) : ssub (urlPrefix ++ X) = urlPrefix ++ ssub X :=
   reSub_plain_append strMatch_needsBs _ _ (by simp [urlPrefix])
